@@ -526,6 +526,15 @@ impl<'a> World<'a> {
         }
         // -------- take result into the application's hands, C08 ledger
         let took_something = self.rx.led.borrow().out.len() > 0;
+        if let RxRes::Ok(DecapStatus::CompletedPkt(b, md), _) = &r {
+            let known = self.rx.led.borrow().out.contains_key(&(b.as_ptr() as usize));
+            if !known {
+                let v = Violation::new("C08", "C08.unknown_buffer_handed_out", kind_site.clone(), format!("the buffer delivered with a completed PDU ({} bytes long, PDU {} bytes) is not one the memory handed to the decapsulator: buffers are being fabricated", b.len(), md.pdu_len()));
+                if self.report(st, v) {
+                    return (true, consumed);
+                }
+            }
+        }
         match r {
             RxRes::Ok(DecapStatus::CompletedPkt(b, _), _) => self.rx.app.push(b),
             RxRes::Err(DecapError::ErrorMemory(DecapMemoryError::StorageOverflow(b)), _) | RxRes::Err(DecapError::ErrorMemory(DecapMemoryError::BufferTooSmall(b)), _) => self.rx.app.push(b),
@@ -1841,7 +1850,19 @@ pub mod gen {
                         let want = (maxpdu as i64 + d).max(0) as usize;
                         let lab = *rng.pick(&[Lab::ReUse, Lab::ReUse, L3A, L6A, Lab::Bcast]);
                         fid = fid.wrapping_add(1);
-                        match rng.below(4) {
+                        match rng.below(5) {
+                            4 => {
+                                // chain ending on a known final mandatory extension (it stands for the protocol type)
+                                let pl = rng.bytes(want);
+                                let (id, dl) = if rng.chance(1, 2) { (0x0082u16, 0usize) } else { (0x0081u16, 2usize) };
+                                let mut exts: Vec<(u16, Vec<u8>)> = vec![];
+                                if rng.chance(1, 2) {
+                                    exts.push((0x0301, vec![1, 2, 3, 4]));
+                                }
+                                exts.push((id, vec![7; dl]));
+                                let dd = Desc { kind: Kind::Complete, lt: lab.lt(), frag_id: 0, total_len: 0, ptype: id, label: lab.bytes(), exts: &exts, final_mandatory: true, payload: &pl, crc: 0 };
+                                ops.push(feed(wire::serialise(&dd, None), 10));
+                            }
                             0 => {
                                 let pl = rng.bytes(want);
                                 let dd = Desc { kind: Kind::Complete, lt: lab.lt(), frag_id: 0, total_len: 0, ptype: 0x0800, label: lab.bytes(), exts: &[], final_mandatory: false, payload: &pl, crc: 0 };
